@@ -130,6 +130,13 @@ def gen_modules(rng, p, layers):
         if not classes:
             continue
         m = {'name': 'test_m%d' % mi, 'classes': classes}
+        if rng.random() < p.get('p_doctest', 0.0):
+            m['doctests'] = []
+            for di in range(rng.randint(1, 2)):
+                dt = {'name': 'dt%d' % di, 'examples': rng.randint(1, 3)}
+                if lnames and rng.random() < 0.5:
+                    dt['layer'] = rng.choice(lnames)
+                m['doctests'].append(dt)
         if rng.random() < p['p_suite_tree']:
             m['suite'] = gen_suite_tree(rng, p, classes, lnames)
         modules.append(m)
@@ -276,6 +283,12 @@ class Model:
             else:
                 for cname in sorted(classes):
                     cls_leaf(classes[cname], None, None, 1)
+            for dt in m.get('doctests') or []:
+                tid = '%s.%s' % (modname, dt['name'])
+                out.append({'tid': tid, 'sid': '%s (%s)' % (dt['name'], modname),
+                            'layer': dt.get('layer'), 'level': 1,
+                            't': {'name': dt['name'], 'doctest': dt['examples']}, 'c': {},
+                            'module': modname})
         return out
 
     def select(self, opt, import_failed=()):
@@ -340,6 +353,12 @@ def predict_test(t, raised):
     """
     ev = []
     phases = []
+    if t.get('doctest'):
+        # doctest: every example runs; any exception in an example is a failure of the test
+        phases = ['ex#%d' % i for i in range(t['doctest'])]
+        bad = any(raised.get(ph) for ph in phases)
+        return {'started': True, 'events': [('failure' if bad else 'success', 'test')],
+                'phases': phases}
     if t.get('deco') == 'skip':
         return {'started': False, 'events': [('skip', 'test')], 'phases': []}
     st = {'success': True, 'expected': None}
